@@ -250,7 +250,26 @@ def run(shard, ctx):
                             ctx.call(MO.write_Track, path, obj, bpm, repeat)
                             w["written_before_then_changed"] = change(rng, t, obj, values, kw)
                         w["track"] = t
-                        st, r = ctx.call(MO.write_Track, path, obj, bpm, repeat)
+                        route = rng.random()
+                        if route < 0.8:
+                            st, r = ctx.call(MO.write_Track, path, obj, bpm, repeat)
+                        else:
+                            # the same file put together by hand from the public pieces: a MidiTrack handed to MidiFile(...)
+                            # (rendered before or after the MidiFile is made)
+                            from mingus.midi.midi_track import MidiTrack as _MT
+
+                            def by_hand(first_render=route < 0.9):
+                                mt = _MT(bpm)
+                                if first_render:
+                                    for _k in range(repeat + 1):
+                                        mt.play_Track(obj)
+                                mf = MO.MidiFile([mt])
+                                if not first_render:
+                                    for _k in range(repeat + 1):
+                                        mt.play_Track(obj)
+                                return mf.write_file(path)
+                            w["written_by"] = "MidiFile([MidiTrack]) rendered %s" % ("before" if route < 0.9 else "after")
+                            st, r = ctx.call(by_hand)
                         specs = [t]
                     else:
                         c = MM.random_composition(rng, values, **kw)
